@@ -211,6 +211,14 @@ func checkC02(cx *Ctx, r *Report) {
 		r.Fail("R-VFG", "sso", "", "SSO handler not found")
 		return
 	}
+	// the provider whose endpoints are used is the one the request's Issuer names: looked up under the Issuer, and the
+	// request is accepted only if the Issuer equals that provider's entity ID exactly (shared with C06 / C13)
+	cx.checkLookupByIssuer(r)
+	if cx.requireC20(r) {
+		if k := cx.ssoChain(r); k != nil {
+			cx.checkRequiredContent(r, k, vs)
+		}
+	}
 	cx.checkFieldSinks(r, "R-VFG", "sso", vs, []fieldSink{
 		{"provider.Response", "AcsUrl", []string{acsLoc, "const:"}, []string{acsLoc}, true, ""},
 		{"provider.Response", "ProtocolBinding", []string{acsBinding, "const:"}, []string{acsBinding}, true, ""},
